@@ -13,6 +13,7 @@ fn main() {
 			match args[2].as_str() {
 				"c20" => vh::c20_params_builder::replay(&cases, &mut out),
 				"c01" => vh::c01_single::replay(&cases, &mut out),
+				"c02" => vh::c02_batch::replay(&cases, &mut out),
 				"c13" => vh::c13_registry::replay(&cases, &mut out),
 				"c16" => vh::c16_params_seq::replay(&cases, &mut out),
 				m => {
